@@ -46,6 +46,10 @@ def library():
             "e", Block([], V("n")))), ret="int", pts=["str"]),
         "find_in_glist": Fn(["n"], Block([Let("i", I(0)), For("x", V("glist"), Block([
             Expr(If(Bin("==", V("x"), V("n")), Block([Ret(V("i"))]))), Expr(Asg(V("i"), I(1), "+="))]))], I(-1)), ret="int"),
+        # an exception raised and caught inside one function, in the middle of an expression, while the caller has operands
+        # pending: nothing of it may stay behind for the rest of this call or for the next one
+        "value_of": Fn(["s"], Block([], Try(Block([], Bin("*", I(1), Bin("+", I(0), MCall(V("s"), "parse_int")))), "e", Block([], I(-1)))), ret="int", pts=["str"]),
+        "acc_parse": Fn(["s"], Block([Expr(Asg(V("counter"), Bin("+", Bin("+", V("counter"), I(100)), Call("value_of", V("s")))))], V("counter")), ret="int", pts=["str"]),
         # threads without host-visible effects
         "idle": Fn(["n"], Block([Let("i", I(0)), While(Bin("<", V("i"), V("n")), Block([Expr(Asg(V("i"), I(1), "+="))]))])),
         "spin": Fn([], Block([Loop(Block([]))])),
@@ -64,7 +68,8 @@ CALLS = [("add", [1, 2]), ("add", [-5, 5]), ("sub3", [10, 3, 2]), ("sub3", [1, 2
          ("ret_from_nested", [9]), ("thrower", [0]), ("thrower", [1]), ("catcher", [0]), ("catcher", [1]), ("div", [7, 2]),
          ("div", [7, 0]), ("deep", [5]), ("mk_list", [3]), ("id_str", ["x y"]), ("is_pos", [1]), ("nullfn", []),
          ("glist_push", [7]), ("spawner_ok", [5]), ("spawner_boom", [3]),
-         ("find_char", ["c"]), ("first_multiple", [3]), ("hex_value", ["a"]), ("count_until", ["d"]), ("find_throw", ["b"]), ("find_in_glist", [0])]
+         ("find_char", ["c"]), ("first_multiple", [3]), ("hex_value", ["a"]), ("count_until", ["d"]), ("find_throw", ["b"]), ("find_in_glist", [0]),
+         ("acc_parse", ["5"]), ("acc_parse", ["n/a"]), ("value_of", ["oops"])]
 
 
 def lit(v):
